@@ -32,7 +32,7 @@ ANCHORS = [
     "raggedshape.py::RaggedView2._calculate_lengths",
     "raggedshape.py::build_indices",
 ]
-RECVS = ["fresh", "lazyrows", "lazycols+2", "lazycols-1", "lazychain", "ufunc", "astype", "deepcopy", "pickle", "copy-of-lazy", "readonly", "saveload", "concat", "fromnumpy", "fromnumpy-F", "tonumpy-called", "subclass", "was-argument", "byteswapped", "unsafe", "ctype-alias", "own-shape"]
+RECVS = ["fresh", "lazyrows", "lazycols+2", "lazycols-1", "lazychain", "ufunc", "astype", "deepcopy", "pickle", "copy-of-lazy", "readonly", "saveload", "concat", "fromnumpy", "fromnumpy-F", "tonumpy-called", "subclass", "was-argument", "byteswapped", "unsafe", "ctype-alias", "own-shape", "lazytail-parent-used"]
 FLOOR_TAGS = ["recv:" + r_ for r_ in RECVS] + ["mask-as-list", "r:int", "r:slice+1", "r:slice+k", "r:slice-", "r:list", "r:array", "r:mask", "r:ell",
               "c:none", "c:int+", "c:int-", "c:slice+1", "c:slice+k", "c:slice-",
               "must-refuse", "sel-has-empty-row", "ellipsis-padded", "e-first", "e-last", "e-mid", "e-consec", "allempty", "norows"]
@@ -149,6 +149,21 @@ def build_receiver(recv, flat, lens):
         prow = [r[::-1] for r in rows]
         parent = RA(np.concatenate(prow) if prow else flat[:0], [len(r) for r in prow])
         return parent[:, ::-1], parent
+    if recv == "lazytail-parent-used":
+        # every parent row is one junk cell followed by the wanted row (so the parent has no empty row at all); the parent is reduced, read and compared
+        # BEFORE the selection parent[:, 1:] is taken -- whatever the parent learnt about itself must not be taken for a fact about the selection
+        prow = [np.concatenate([junk(1), r]) for r in rows]
+        parent = RA(np.concatenate(prow) if prow else flat[:0], [len(r) for r in prow])
+        if len(prow):
+          with np.errstate(all="ignore"):          # (the events of these warm-up calls on hostile values have no dense counterpart to be weighed against)
+            attempt(lambda: parent.sum(axis=-1))
+            attempt(lambda: parent.any(axis=-1))
+            attempt(lambda: np.bitwise_or.reduce(parent, axis=-1))
+            attempt(lambda: parent.mean(axis=0))
+            attempt(lambda: parent.col_counts())
+            attempt(lambda: parent == parent)
+            attempt(lambda: parent.sort(axis=-1))
+        return parent[:, 1:], parent
     if recv == "lazychain":
         prow = [junk(1)]
         for r in rows[::-1]:
